@@ -187,6 +187,16 @@ class Unsigned(BitVector):
             rhs = -(rhs % 2**self.width)
 
         else:
+            if isinstance(rhs, Unsigned):
+                # negate at the width of the result, the two's complement
+                # of a narrower operand would wrap at its own width
+                result_width = max(self.width, rhs.width)
+
+                if target_width is not None:
+                    result_width = max(result_width, target_width)
+
+                rhs = rhs.resize(result_width)
+
             rhs = -rhs
 
         return self.add(rhs, target_width)
